@@ -244,7 +244,17 @@ class GenericContextRegistry(
 
         # Finally we add them to the active context.
         self._active_ctx.insert_contexts(*contexts)
-        self._switch_context_cache_and_units()
+        try:
+            self._switch_context_cache_and_units()
+        except Exception:
+            # A failed activation must change nothing: drop the new contexts
+            # together with their partially built cache and unit overlay.
+            key = self._active_ctx.hashable()
+            self._caches.pop(key, None)
+            self._context_units.pop(key, None)
+            self._active_ctx.remove_contexts(len(contexts))
+            self._switch_context_cache_and_units()
+            raise
 
     def disable_contexts(self, n: int | None = None) -> None:
         """Disable the last n enabled contexts.
